@@ -10,6 +10,7 @@
               source now (lenient: what the hardware does);  GUARDED 0|1: that finding
          WF <0|1>                                                    all matrices well-formed (cs_wf_b) and compressed
          MPARTS n {L R} / MTERMS L R n {re im pole} / MSTAT L R matched kept dropped new merged negl refused
+         MCHAIN L R <longest chain of merges an added term went through>
          MZERO L R re im (susceptibility) / MAVG reA imA reB imB
          MVAL tag nz {re im} / MVALN tag k {n re im}          tag = G | S0 | S1 | S2 | S3
          MBOUND nz {dropped merge negl} / MBOUNDN k {n dropped merge negl}     from the model's ghost data
@@ -103,27 +104,38 @@ let all_wf () =
   let chk tbl = Hashtbl.iter (fun _ (m, (_, compressed)) -> if not (compressed && c_cs_wf_b m) then ok := false) tbl in
   chk csA; chk csB; chk csBR; !ok
 
-(* truncation data of a part from the ghost fields: dropped candidates, and (added term, event) pairs *)
+(* truncation data of a part from the ghost fields: dropped candidates, and (added term, event) pairs.
+   An event is the chain of merges the added term went through (TermList.add_term = the retry loop of TermList.h):
+   every step (erased stored term x, reduced term) moves the running sum (pt, rt) to the pole px of x -- error
+   |rt| |pt - px| / (|z - pt| |z - px|) -- and continues with the reduced term; a final reduced term that is dropped as
+   negligible (or, never, lost because the model's loop bound ran out) is lost entirely. *)
 let bound_of dropped (kept : (fc * fc) list) (events : (fc, fc) event list) z =
   let d = List.fold_left (fun acc (p, r) -> acc +. cabs r /. cabs (csub z p)) 0. dropped in
   let m = ref 0. and ng = ref 0. in
-  (try List.iter2 (fun (pt, rt) ev ->
+  (try List.iter2 (fun (t : fc * fc) ev ->
       match ev with
-      | EvMerged (_, (px, _), _) ->
-        m := !m +. cabs rt *. Float.abs (re pt -. re px) /. (cabs (csub z pt) *. cabs (csub z px))
-      | EvNegligible (_, (px, rs)) ->
-        (* the whole partial sum is lost, and the added term had been moved to px *)
-        ng := !ng +. cabs rs /. cabs (csub z px);
-        m := !m +. cabs rt *. Float.abs (re pt -. re px) /. (cabs (csub z pt) *. cabs (csub z px))
-      | EvRefused -> ng := !ng +. cabs rt /. cabs (csub z pt)
-      | EvNew -> ()) kept events
+      | EvChain (steps, fin) ->
+        let cur = List.fold_left (fun (pt, rt) ((px, _), red) ->
+            m := !m +. cabs rt *. Float.abs (re pt -. re px) /. (cabs (csub z pt) *. cabs (csub z px));
+            red) t steps in
+        (match fin with
+         | FinInserted -> ()
+         | FinNegligible | FinFuel -> let (pc, rc) = cur in ng := !ng +. cabs rc /. cabs (csub z pc))) kept events
    with Invalid_argument _ -> ng := infinity);
   (d, !m, !ng)
 
+(* new (inserted at once), merged (one or more merges, the sum inserted), negl (the sum dropped as negligible),
+   refused (a term lost otherwise: the loop bound of the model ran out -- excluded by termlist_loop_terminates),
+   and the length of the longest chain *)
 let count_events evs =
-  List.fold_left (fun (a, b, cc, d) e -> match e with
-      | EvNew -> (a + 1, b, cc, d) | EvMerged _ -> (a, b + 1, cc, d)
-      | EvNegligible _ -> (a, b, cc + 1, d) | EvRefused -> (a, b, cc, d + 1)) (0, 0, 0, 0) evs
+  List.fold_left (fun (a, b, cc, d, mx) e -> match e with
+      | EvChain (steps, fin) ->
+        let mx = max mx (List.length steps) in
+        (match fin, steps with
+         | FinInserted, [] -> (a + 1, b, cc, d, mx)
+         | FinInserted, _ -> (a, b + 1, cc, d, mx)
+         | FinNegligible, _ -> (a, b, cc + 1, d, mx)
+         | FinFuel, _ -> (a, b, cc, d + 1, mx))) (0, 0, 0, 0, 0) evs
 
 let kpi = c Float.pi 0.
 
@@ -144,9 +156,10 @@ let gfmodel (t : string array) =
      List.iter (fun ((l, r), o) ->
          Printf.printf "MTERMS %d %d %d%s\n" l r (List.length o.o_terms)
            (String.concat "" (List.map (fun (p, rs) -> Printf.sprintf " %s %h" (hc rs) (re p)) o.o_terms));
-         let (a, b, cc, d) = count_events o.o_events in
+         let (a, b, cc, d, mx) = count_events o.o_events in
          Printf.printf "MSTAT %d %d %d %d %d %d %d %d %d\n" l r (List.length o.o_raw) (List.length (c_kept o.o_raw))
-           (List.length (c_dropped o.o_raw)) a b cc d) parts;
+           (List.length (c_dropped o.o_raw)) a b cc d;
+         Printf.printf "MCHAIN %d %d %d\n" l r mx) parts;
      Printf.printf "MVAL G %d%s\n" (List.length zs) (String.concat "" (List.map (fun z -> " " ^ hc (c_gf_value fexp parts z)) zs));
      if ns <> [] then
        Printf.printf "MVALN G %d%s\n" (List.length ns)
@@ -181,7 +194,8 @@ let suscmodel (t : string array) =
          Printf.printf "MTERMS %d %d %d%s\n" l r (List.length o.so_terms)
            (String.concat "" (List.map (fun (p, rs) -> Printf.sprintf " %s %h" (hc rs) (re p)) o.so_terms));
          Printf.printf "MZERO %d %d %s\n" l r (hc o.so_zero);
-         let (a, bb, cc, d) = count_events o.so_events in
+         let (a, bb, cc, d, mx) = count_events o.so_events in
+         Printf.printf "MCHAIN %d %d %d\n" l r mx;
          let nzero = List.length (List.filter (function SZero _ -> true | _ -> false) o.so_raw) in
          Printf.printf "MSTAT %d %d %d %d %d %d %d %d %d %d\n" l r (List.length o.so_raw) (List.length (c_s_kept o.so_raw))
            (List.length (c_s_dropped o.so_raw)) a bb cc d nzero) parts;
